@@ -225,7 +225,8 @@ class KeyType(StringType, prim='key'):
             return False
         else:
             offset = curves[self.prefix][1]
-            return self.raw[offset:] < other.raw[offset:]
+            # NOTE: the skipped flag byte still has to break ties, otherwise the order is not total
+            return (self.raw[offset:], self.raw[:offset]) < (other.raw[offset:], other.raw[:offset])
 
     @classmethod
     def dummy(cls, context: AbstractContext) -> 'KeyType':
